@@ -374,7 +374,9 @@ class Engine:
         """
         # TODO: Maybe a property setter like input_values.
         values = tuple(output_variable.value for output_variable in self.output_variables)
-        result = np.column_stack(values) if values else np.array(values)
+        # broadcast, because an output variable that is disabled or was not activated holds a single value
+        # for all the rows of a batch
+        result = np.column_stack(np.broadcast_arrays(*values)) if values else np.array(values)
         return result
 
     @property
